@@ -1,6 +1,8 @@
 import Driver.Util
 import Driver.Part
 import Driver.Barrier
+import Driver.Bytes
+import Driver.Atomic
 import Driver.Deliver
 import Driver.Route
 import Driver.DSet
@@ -10,6 +12,7 @@ import Driver.Lines
 import Driver.Arr
 import Driver.Wire
 import Driver.Cache
+import Driver.OutSer
 /-! `ygm_model <mode>`: runs the executable definitions of `YgmVerif.Model.*`
 (the very definitions the theorems in `YgmVerif.Props.*` are about) behind a
 one-line-in / one-line-out protocol. -/
@@ -20,6 +23,8 @@ def main (args : List String) : IO UInt32 := do
   match args with
   | ["part"] => lineLoop stdin Driver.Part.handle; return 0
   | ["deliver"] => stateLoop stdin Driver.Deliver.handle Driver.Deliver.dummy; return 0
+  | ["atomic"] => stateLoop stdin Driver.Atomic.handle []; return 0
+  | ["bytes"] => stateLoop stdin Driver.Bytes.handle ⟨0, []⟩; return 0
   | ["barrier"] => stateLoop stdin Driver.Barrier.handle Driver.Barrier.dummy; return 0
   | ["route"] => lineLoop stdin Driver.Route.handle; return 0
   | ["dset"] => lineLoop stdin Driver.DSet.handle; return 0
@@ -32,4 +37,6 @@ def main (args : List String) : IO UInt32 := do
   | ["wire"] => stateLoop stdin Driver.Wire.handle []; return 0
   | ["cache"] => lineLoop stdin Driver.Cache.handleCache; return 0
   | ["reduce"] => lineLoop stdin Driver.Cache.handleReduce; return 0
+  | ["out"] => lineLoop stdin Driver.OutSer.handleOut; return 0
+  | ["ser"] => lineLoop stdin Driver.OutSer.handleSer; return 0
   | _ => IO.eprintln "usage: ygm_model <mode>"; return 2
